@@ -165,6 +165,9 @@ Definition with_pc (x : caller) (p : cpc) : caller :=
 Definition is_send (a : arm) : bool :=
   match a with ASend _ => true | _ => false end.
 
+Definition is_sd (s : state) (c : N) : bool :=
+  match getc c (callers s) with Some x => c_sd x | None => false end.
+
 (** One step; [None] when the action is not enabled. *)
 Definition step (s : state) (a : action) : option state :=
   match a with
@@ -240,7 +243,7 @@ Definition step (s : state) (a : action) : option state :=
   | ATake ok =>
       match serve s, queue s with
       | SRun, c :: rest =>
-          let sd := match getc c (callers s) with Some x => c_sd x | None => false end in
+          let sd := is_sd s c in
           if shutc s then
             Some (mkState SRun (sigc s) true rest (pend s) (c :: donec s) (fetchq s)
                           (reader s) (readerr s) (c :: taken s) (dropped s) (callers s))
@@ -320,8 +323,13 @@ Definition step (s : state) (a : action) : option state :=
   | ARDone =>
       match reader s with
       | RHave (Some c) true =>
-          Some (mkState (serve s) (sigc s) (shutc s) (queue s) (pend s) (c :: donec s) (fetchq s)
-                        RIdle (readerr s) (taken s) (dropped s) (callers s))
+          (* done(); the reply to a msgShutdown call ends serveRead (io.EOF) *)
+          if is_sd s c then
+            Some (mkState (serve s) (sigc s) (shutc s) (queue s) (pend s) (c :: donec s) (fetchq s)
+                          RExit true (taken s) (dropped s) (callers s))
+          else
+            Some (mkState (serve s) (sigc s) (shutc s) (queue s) (pend s) (c :: donec s) (fetchq s)
+                          RIdle (readerr s) (taken s) (dropped s) (callers s))
       | RHave _ _ =>
           Some (mkState (serve s) (sigc s) (shutc s) (queue s) (pend s) (donec s) (fetchq s)
                         RIdle (readerr s) (taken s) (dropped s) (callers s))
